@@ -421,8 +421,9 @@ fn(Server, "handle_queued_event", args={"event": Ref(Event)},
     ("slot-released-exactly-at-completion", lambda s: implies(
         s.self._requests_completed == s.pre(s.self)._requests_completed + 1,
         s.self._concurrency_model._used_capacity == ite(
-            s.pre(s.self._concurrency_model)._used_capacity - _weight(s.event) >= 0,
-            s.pre(s.self._concurrency_model)._used_capacity - _weight(s.event), 0))),
+            # the weight as read at entry: forward() later adds a "metadata" key to the shared context
+            s.pre(s.self._concurrency_model)._used_capacity - _weight(s.old(s.event)) >= 0,
+            s.pre(s.self._concurrency_model)._used_capacity - _weight(s.old(s.event)), 0))),
     ("rejected-takes-no-slot", lambda s: implies(
         s.self._requests_rejected == s.pre(s.self)._requests_rejected + 1,
         s.self._concurrency_model._used_capacity == s.pre(s.self._concurrency_model)._used_capacity)),
